@@ -97,8 +97,19 @@ def run_jobs(fn, jobs, mir_text, src_root, extra=None, procs=None):
         _init_worker(mir_text, src_root, extra)
         return [_run_job((fn, j)) for j in jobs]
     ctx = multiprocessing.get_context('fork')
-    with ctx.Pool(procs, initializer=_init_worker, initargs=(mir_text, src_root, extra), maxtasksperchild=8) as pool:
-        return pool.map(_run_job, [(fn, j) for j in jobs], chunksize=1)
+    # no maxtasksperchild: replacement workers would be forked from the pool's (threaded) parent later on, which can
+    # deadlock in the child; a global deadline turns a hung pool into an inconclusive result instead of a hang
+    deadline = float(os.environ.get('VERIF_POOL_DEADLINE_S', '7200'))
+    pool = ctx.Pool(procs, initializer=_init_worker, initargs=(mir_text, src_root, extra))
+    try:
+        ar = pool.map_async(_run_job, [(fn, j) for j in jobs], chunksize=1)
+        try:
+            return ar.get(timeout=deadline)
+        except multiprocessing.TimeoutError:
+            return [{'status': 'inconclusive', 'reason': 'worker pool exceeded %.0f s' % deadline, 'job': 'pool'}]
+    finally:
+        pool.terminate()
+        pool.join()
 
 
 # ---------------------------------------------------------------- known findings
